@@ -8,6 +8,7 @@ import random
 import tempfile
 from collections import Counter
 
+import common
 from common import Ctx, exc_name
 from gridsim import RefGrid, Tokens, apply_op, enc_opt
 
@@ -484,6 +485,96 @@ def tall_probe(ctx: Ctx):
                    [res["request"]], [res["impl"]], exhaustive=True, keep=0)
 
 
+FIXTURES_WITH_MERGES = ["test-9.numbers", "test-4.numbers", "issue-59.numbers", "issue-77.numbers", "test-titles.numbers",
+                        "test-styles.numbers", "test-custom-formats.numbers"]
+
+
+def _merge_picture(tb):
+    """(sorted merge ranges, per cell: 'A'+size for an anchor, 'P'+rect for a placeholder, '.' otherwise)"""
+    from numbers_parser import MergedCell
+    cells = []
+    for r in range(tb.num_rows):
+        for c in range(tb.num_cols):
+            cell = tb.cell(r, c)
+            if isinstance(cell, MergedCell):
+                cells.append(f"P{cell.row_start},{cell.col_start},{cell.row_end},{cell.col_end}")
+            elif cell.is_merged:
+                cells.append(f"A{cell.size[0]}x{cell.size[1]}")
+            else:
+                cells.append(".")
+    return sorted(tb.merge_ranges), cells
+
+
+def fixture_merges(ctx: Ctx):
+    """documents written by Numbers that already contain merged regions: a further disjoint rectangle is merged through
+    the API, the picture is checked on the open document and after save + reopen (oracle only; the model's scenarios are
+    on new documents)."""
+    import tempfile
+    from numbers_parser import Document
+    from numbers_parser.xrefs import xl_range
+    rng = ctx.rng
+    for name in FIXTURES_WITH_MERGES:
+        path = common.REPO / "tests/data" / name
+        if not path.exists():
+            continue
+        for variant in range(2 if ctx.quick else 6):
+            try:
+                doc = Document(str(path))
+            except Exception:  # noqa: BLE001  (unreadable fixtures are other properties)
+                break
+            tables = [(si, ti) for si, sh in enumerate(doc.sheets) for ti, tb in enumerate(sh.tables) if tb.merge_ranges]
+            if not tables:
+                break
+            si, ti = tables[variant % len(tables)]
+            tb = doc.sheets[si].tables[ti]
+            nr, nc = tb.num_rows, tb.num_cols
+            if nr * nc > 1200:
+                continue
+            before_ranges, before_cells = _merge_picture(tb)
+            taken = {(r, c) for r in range(nr) for c in range(nc) if before_cells[r * nc + c] != "."}
+            cands = [q for q in all_rects(nr, nc) if (q[2] - q[0] + 1) * (q[3] - q[1] + 1) in (2, 3, 4, 6)
+                     and not any((r, c) in taken for r in range(q[0], q[2] + 1) for c in range(q[1], q[3] + 1))]
+            if not cands:
+                continue
+            q = rng.choice(cands)
+            ref = xl_range(*q)
+            where = {"fixture": name, "sheet": si, "table": ti, "merge": ref}
+            try:
+                tb.merge_cells(ref)
+            except Exception as e:  # noqa: BLE001
+                ctx.violation("fixture-merge-raises", f"{name}: merge_cells({ref!r}) raised {exc_name(e)}: {e}", where)
+                continue
+            want_ranges = sorted(before_ranges + [ref])
+            h, w = q[2] - q[0] + 1, q[3] - q[1] + 1
+            want_cells = list(before_cells)
+            for r in range(q[0], q[2] + 1):
+                for c in range(q[1], q[3] + 1):
+                    want_cells[r * nc + c] = f"A{h}x{w}" if (r, c) == (q[0], q[1]) else f"P{q[0]},{q[1]},{q[2]},{q[3]}"
+            got = _merge_picture(tb)
+            if got != (want_ranges, want_cells):
+                ctx.violation("fixture-merge-open-picture", f"{name}: after merge_cells({ref!r}) the open document reports ranges "
+                              f"{got[0]} (expected {want_ranges})" + ("" if got[1] == want_cells else "; cell states differ"), where)
+                continue
+            fd, tmp = tempfile.mkstemp(suffix=".numbers")
+            os.close(fd)
+            try:
+                doc.save(tmp)
+                tb2 = Document(tmp).sheets[si].tables[ti]
+                got2 = _merge_picture(tb2)
+            except Exception as e:  # noqa: BLE001
+                ctx.violation("fixture-merge-save-raises", f"{name}: save/reopen after merge_cells({ref!r}) raised {exc_name(e)}: {e}", where)
+                continue
+            finally:
+                os.unlink(tmp)
+            ctx.count("documents written by Numbers with merged regions: one more disjoint rectangle merged, open vs reopened", 1)
+            ctx.mark(("fixture-merge", name, si, ti, ref))
+            if got2 != (want_ranges, want_cells):
+                ctx.violation("fixture-merge-open-vs-reloaded",
+                              f"{name} sheet {si} table {ti}: merged {ref} next to the existing {before_ranges}; the open document "
+                              f"reports {want_ranges}, the reopened file {got2[0]}"
+                              + ("" if got2[1] == want_cells or got2[0] != want_ranges else " (cell states differ)"), where)
+
+
 def run(ctx: Ctx):
     rng = ctx.rng
     with _pool() as pool:
@@ -517,6 +608,7 @@ def run(ctx: Ctx):
         _collect(ctx, "seeded scenarios: shapes up to 12x8, 1..6 rectangles, writes / row+column edits / saves around them",
                  pool.map(run_scenario, jobs, chunksize=4), False)
     tall_probe(ctx)
+    fixture_merges(ctx)
 
 
 def replay(data):
